@@ -321,10 +321,10 @@ pub fn run(ctx: &Ctx) {
         }
     }
     ctx.enumerate("every-truncation-point", cases, true, &oracle);
-    ctx.search("random-packets", ctx.n(150_000, 3_000_000), &|| fixed_case(6, 3), &oracle);
-    ctx.search("more-records", ctx.n(6_000, 100_000), &|| fixed_case(40, 2), &oracle);
+    ctx.search("random-packets", ctx.n(800_000, 40_000_000), &|| fixed_case(6, 3), &oracle);
+    ctx.search("more-records", ctx.n(30_000, 1_000_000), &|| fixed_case(40, 2), &oracle);
     if ctx.thorough() {
-        ctx.search("datagram-limit", 4_000, &|| fixed_case(1364, 1), &oracle);
+        ctx.search("datagram-limit", 40_000, &|| fixed_case(1364, 1), &oracle);
     }
     // full-size packets at the datagram limit
     let mut cases = vec![];
